@@ -5,7 +5,7 @@ PATCH="$(readlink -f "$1")"; shift
 N="${TRY_NAME:-try}"; /verif/tools/mkscratch.sh "$N" >/dev/null || exit 2
 D=/tmp/w-$N; source $D/env.sh; export CARGO_BUILD_JOBS=8 VERIF_THREADS=${VERIF_THREADS_TRY:-8}
 (cd $D/repo && git apply "$PATCH") || { echo "APPLY FAIL $PATCH"; exit 2; }
-(cd $D/harness && cargo build --release --offline >$D/build.log 2>&1) || { echo "BUILD FAIL (see $D/build.log)"; cp $D/build.log $D/build-fail-$(date +%s).log; exit 2; }
+(cd $D/harness && cargo build --release --offline >$D/build.log 2>&1) || (cd $D/harness && sleep 20 && cargo build --release --offline >$D/build.log 2>&1) || { echo "BUILD FAIL (see $D/build.log)"; cp $D/build.log $D/build-fail-$(date +%s).log; exit 2; }
 for id in "$@"; do
   echo "== $(basename $(dirname $PATCH))/$(basename $PATCH) vs $id"
   $D/target/release/check --property $id --tier quick --no-evidence 2>/dev/null | grep -E "^(DETAIL|VIOLATION|OK|INCONC)" | cut -c1-260
